@@ -218,8 +218,8 @@ LocRV(loc) == RV("loc", FALSE, 0, DZero, "", "", loc)
 
 Frame(n, loc, val, ob, ety, cl) ==
     [n |-> n, loc |-> loc, val |-> val, ob |-> ob, ety |-> ety, ph |-> cl.ph, pend |-> cl.pend, vi |-> cl.vi, det |-> cl.det,
-     eloc |-> cl.eloc, okv |-> cl.okv, since |-> {}, brk |-> FALSE, fail |-> FALSE, res |-> <<>>, kidloc |-> <<>>, kidids |-> <<>>,
-     kidety |-> "E", rogue |-> FALSE, parsed |-> <<>>,
+     eloc |-> cl.eloc, okv |-> cl.okv, since |-> {}, brk |-> FALSE, fail |-> FALSE, res |-> <<>>, hand |-> <<>>,
+     rogue |-> FALSE, parsed |-> <<>>,
      fnp |-> NoFn, mapped |-> {}, mres |-> <<>>, vst |-> "none", fv |-> UnitRV, phb |-> cl.ph]
 
 (* ------------------------- children of a frame -------------------------- *)
@@ -242,7 +242,8 @@ Child(F, ob) ==
       [] OTHER -> [has |-> FALSE, n |-> 0, loc |-> F.loc, val |-> NullV, ety |-> F.ety]
 
 \* total order on obligations used by the canonical (source order) schedule: members/elements by index, then missing checks
-ObRank(ob) == CASE ob.o \in {"elem", "entry", "inner"} -> ob.i [] ob.o = "missing" -> 100000 + ob.i [] OTHER -> 200000 + ob.i
+ObRank(ob) == CASE ob.o = "handover" -> 0 - 1000 + ob.i      \* the current code hands a child's error over as soon as the child returns
+                [] ob.o \in {"elem", "entry", "inner"} -> ob.i [] ob.o = "missing" -> 100000 + ob.i [] OTHER -> 200000 + ob.i
 ObLeq(a, b) == ObRank(a) <= ObRank(b)
 RECURSIVE SetToSeqByRank(_)
 SetToSeqByRank(S) == IF S = {} THEN <<>> ELSE LET m == CHOOSE x \in S : \A y \in S : ObLeq(x, y) IN <<m>> \o SetToSeqByRank(S \ {m})
@@ -311,6 +312,9 @@ StartOf(F, ob, pk) ==
                  ELSE IF N.deny = "fn"
                  THEN {EvCall(N.denyfn, "deny", ob, <<StrRV(m.k), StrsRV(Accepted(N, F.vi)), LocRV(F.loc)>>, "exact", 0, F.loc, F.ety)}
                  ELSE {Ev("err", 0, F.loc, ob, Det("unknownkey", NullV, Accepted(N, F.vi), "", m.k, "", 0, ""), a, TRUE, UnitRV, <<>>, F.ety) : a \in Answers}
+      [] ob.o = "handover" ->
+            \* a child's error is handed to this frame's error type at the child's own position (any time before the frame returns)
+            {Ev("mrg", 0, F.hand[ob.i].loc, ob, NoDet, a, TRUE, UnitRV, F.hand[ob.i].ids, F.ety) : a \in Answers}
       [] ob.o = "missing" ->
             IF FieldsOfNode(N, F.vi)[ob.i].missfn # ""
             THEN {EvCall(FieldsOfNode(N, F.vi)[ob.i].missfn, "missing", ob, <<StrRV(EffKey(N, F.vi, ob.i)), LocRV(F.loc)>>, "exact", 0, F.loc, F.ety)}
@@ -338,7 +342,6 @@ Candidates(stack, cur) ==
     CASE F.ph = "leafok" -> PostSteps(F)
       [] F.ph = "bad"    -> {Ev("err", 0, F.eloc, NoOb, F.det, a, TRUE, UnitRV, <<>>, F.ety) : a \in Answers}
       [] F.ph = "fin"    -> {Ev("exit", F.n, F.loc, F.ob, NoDet, "", FALSE, UnitRV, <<>>, F.ety)}
-      [] F.ph = "merge"  -> {Ev("mrg", 0, F.kidloc, NoOb, NoDet, a, TRUE, UnitRV, F.kidids, F.ety) : a \in Answers}
       [] F.ph = "jbad"   -> {Ev("err", 0, F.loc, NoOb, Det("unexpected", NullV, {}, "", "", "", 0, ""), a, TRUE, UnitRV, <<>>, F.ety) : a \in Answers}
       [] F.ph = "tocall" -> {EvCall(F.fnp.f, F.fnp.k, F.fnp.ob, <<F.fnp.arg>>, "exact", 0, F.fnp.loc, F.ety)}
       [] F.ph = "fncall" -> (IF AlwaysErr(F.fnp.k) THEN {} ELSE {EvRet(F.fnp.f, TRUE, F.ety)})
@@ -351,8 +354,13 @@ Candidates(stack, cur) ==
       \* validate / container try_from: merged at the container's location, the call fails whatever the answer
       [] F.ph = "fnm0"   -> {Ev("mrg", 0, F.loc, NoOb, NoDet, a, TRUE, UnitRV, <<F.fnp.id>>, F.ety) : a \in Answers}
       [] F.ph = "work"   ->
-            IF F.brk THEN {Ev("exit", F.n, F.loc, F.ob, NoDet, "", FALSE, UnitRV, <<>>, F.ety)}
-            ELSE IF F.pend = {} THEN (IF F.fail THEN {Ev("exit", F.n, F.loc, F.ob, NoDet, "", FALSE, UnitRV, <<>>, F.ety)} ELSE PostSteps(F))
+            LET hs == {ob \in F.pend : ob.o = "handover"}
+                exiterr == {Ev("exit", F.n, F.loc, F.ob, NoDet, "", FALSE, UnitRV, <<>>, F.ety)}
+            IN
+            IF F.brk THEN exiterr                                     \* the stop was answered in this frame: it returns at once
+            ELSE IF cur.stopped THEN                                  \* a stop was answered below and not overruled: only pass the error up
+                 (UNION {StartOf(F, ob, cur.pk) : ob \in hs}) \cup (IF hs = {} THEN exiterr ELSE {})
+            ELSE IF F.pend = {} THEN (IF F.fail THEN exiterr ELSE PostSteps(F))
             ELSE LET obs == IF cur.canonical THEN {CHOOSE ob \in F.pend : \A o2 \in F.pend : ObLeq(ob, o2)} ELSE F.pend
                  IN UNION {StartOf(F, ob, cur.pk) : ob \in obs}
       [] OTHER -> {}
@@ -384,7 +392,7 @@ AfterErr(stack, id, ob, a) ==
     SetTop(s1, IF F.ph \in {"bad", "jbad"} THEN [F EXCEPT !.ph = "fin", !.fail = TRUE]
                ELSE [F EXCEPT !.pend = @ \ {ob}, !.fail = TRUE, !.brk = (a = "b")])
 
-AfterMrg(stack, a) == SetTop(stack, [Top(stack) EXCEPT !.ph = "work", !.fail = TRUE, !.brk = (a = "b")])
+AfterMrg(stack, ob, a) == SetTop(stack, [Top(stack) EXCEPT !.pend = @ \ {ob}, !.fail = TRUE, !.brk = (a = "b")])
 
 \* exit of the top frame: the parent learns the result
 AfterExit(stack, ok, v, ids) ==
@@ -400,7 +408,8 @@ AfterExit(stack, ok, v, ids) ==
                  ELSE IF PN.c = "cfrom" THEN [P EXCEPT !.ph = "tocall", !.fnp = FnP(IF PN.cfrom = "try" THEN "ctry" ELSE "cfrom", PN.cfn, F.ob, v, P.loc, P.ety, 0, 0)]
                  ELSE [P EXCEPT !.res = Append(@, [ob |-> F.ob, v |-> v])]
             ELSE IF PassThrough(PN) \/ PN.c = "cfrom" THEN [P EXCEPT !.ph = "fin", !.fail = TRUE]
-            ELSE [P EXCEPT !.ph = "merge", !.kidloc = F.loc, !.kidids = ids, !.kidety = F.ety, !.fail = TRUE])
+            ELSE [P EXCEPT !.hand = Append(@, [loc |-> F.loc, ids |-> ids, ety |-> F.ety]),
+                           !.pend = @ \cup {Ob("handover", Len(P.hand) + 1)}, !.fail = TRUE])
 
 \* a user function is called (c: the call candidate)
 AfterCall(stack, c) ==
